@@ -686,8 +686,17 @@ func ruleSetToNotifs(c *Ctx, r *Report) {
 		if as, ok := c.parentMap(f.File)[fp[0]].(*ast.AssignStmt); ok {
 			pathObj = ObjOf(info, as.Lhs[0])
 		}
-		sel, isSel := ast.Unparen(ps[0].Args[0]).(*ast.SelectorExpr)
-		okN = isSel && sel.Sel.Name == "Prefix" && ObjOf(info, fp[0].Args[0]) == prefObj && prefObj != nil && strings.HasSuffix(types.ExprString(fp[0].Args[1]), ".Path") &&
+		// the field or its nil-safe getter: notif.Prefix / notif.GetPrefix(), upd.Path / upd.GetPath().
+		fieldOf := func(e ast.Expr) string {
+			if cl, isCall := ast.Unparen(e).(*ast.CallExpr); isCall && len(cl.Args) == 0 {
+				e = cl.Fun
+			}
+			if s, ok := ast.Unparen(e).(*ast.SelectorExpr); ok {
+				return strings.TrimPrefix(s.Sel.Name, "Get")
+			}
+			return ""
+		}
+		okN = fieldOf(ps[0].Args[0]) == "Prefix" && ObjOf(info, fp[0].Args[0]) == prefObj && prefObj != nil && fieldOf(fp[0].Args[1]) == "Path" &&
 			len(pu[0].Args) == 4 && ObjOf(info, pu[0].Args[0]) == pathObj && paramIndex(f, ObjOf(info, pu[0].Args[2])) == 2 &&
 			errTestedAfter(c, f, f.Decl.Body, ps[0]) && errTestedAfter(c, f, f.Decl.Body, fp[0]) && (isIfInit(c, f, pu[0]) || errTestedAfter(c, f, f.Decl.Body, pu[0]))
 		if v, ok := ConstOf(info, pu[0].Args[3]); !ok || v != "false" {
@@ -865,7 +874,7 @@ func ruleSetToNotifs(c *Ctx, r *Report) {
 	// notifications with deletes are refused (documented TODO), not silently ignored.
 	del := false
 	ast.Inspect(f.Decl.Body, func(n ast.Node) bool {
-		if is, ok := n.(*ast.IfStmt); ok && strings.Contains(types.ExprString(is.Cond), ".Delete") && terminates(info, is.Body.List) {
+		if is, ok := n.(*ast.IfStmt); ok && (strings.Contains(types.ExprString(is.Cond), ".Delete") || strings.Contains(types.ExprString(is.Cond), ".GetDelete()")) && terminates(info, is.Body.List) {
 			del = true
 		}
 		return true
